@@ -82,3 +82,52 @@ package util
 //@ func (ImportNames).LookupPath(i, pkgName) (path, ok)
 //@   ensures {C13,C06} ok ==> has(i, path) && i[path] == pkgName
 //@   ensures !ok ==> path == ""
+
+// ---- doc comments and comment surgery (C17, C11, C09) ---------------------------------------------------------------
+
+//@ func ToAstNode(file, obj) (path, exact)
+//@   requires obj != nil
+//@   ensures len(path) == pathLen(file, objPos(obj)) && (fresh(path) || path == nil)
+//@   ensures forall(i, 0, len(path), path[i] == pathNodeAt(file, objPos(obj), i) && path[i] != nil)
+//@
+//@ spec nodeAt(file *ast.File, pos token.Pos, i int) ast.Node = pathNodeAt(file, pos, i)
+//@ spec docFrom(file *ast.File, pos token.Pos, i int) *ast.CommentGroup =
+//@     cond(i >= pathLen(file, pos), nil,
+//@     cond(is(nodeAt(file, pos, i), *ast.GenDecl), as(nodeAt(file, pos, i), *ast.GenDecl).Doc,
+//@     cond(is(nodeAt(file, pos, i), *ast.FuncDecl), as(nodeAt(file, pos, i), *ast.FuncDecl).Doc,
+//@     cond(is(nodeAt(file, pos, i), *ast.Field), as(nodeAt(file, pos, i), *ast.Field).Doc,
+//@     cond(is(nodeAt(file, pos, i), *ast.TypeSpec) && as(nodeAt(file, pos, i), *ast.TypeSpec).Doc != nil,
+//@          as(nodeAt(file, pos, i), *ast.TypeSpec).Doc, docFrom(file, pos, i+1))))))
+//@ spec declDoc(file *ast.File, obj types.Object) *ast.CommentGroup = docFrom(file, objPos(obj), 0)
+//@
+//@ behaviour docCleanUp()
+//@   captured n != nil && n.Doc != nil
+//@   assigns all(ast.GenDecl.Doc), all(ast.FuncDecl.Doc), all(ast.TypeSpec.Doc), all(ast.Field.Doc)
+//@
+//@ func GetDocCommentOn(file, obj) (cg, cleanUp)
+//@   requires obj != nil
+//@   behaves cleanUp docCleanUp
+//@   ensures {C17,C11,C09} cg == declDoc(file, obj)
+//@   ensures cleanUp != nil
+//@   loop 1 invariant $k <= len(nodes) && docFrom(file, objPos(obj), 0) == docFrom(file, objPos(obj), $k)
+//@
+//@ spec anyMatch(cg *ast.CommentGroup, re *regexp.Regexp) bool =
+//@     cg != nil && exists(i, 0, len(cg.List), reMatchString(re, cg.List[i].Text))
+//@ spec wfGroup(cg *ast.CommentGroup) bool = cg != nil ==> forall(i, 0, len(cg.List), cg.List[i] != nil)
+//@
+//@ func MatchComments(commentGroup, pattern) (r)
+//@   nilable commentGroup
+//@   requires pattern != nil && wfGroup(commentGroup)
+//@   ensures {C17} r == anyMatch(commentGroup, pattern)
+//@   loop 1 invariant $k <= len(commentGroup.List) && forall(i, 0, $k, !reMatchString(pattern, commentGroup.List[i].Text))
+//@
+//@ func ExtractMatchComments(commentGroup, pattern) (removed)
+//@   nilable commentGroup
+//@   requires pattern != nil && wfGroup(commentGroup)
+//@   assigns commentGroup.List
+//@   ensures {C11,C09} forall(i, 0, len(removed), removed[i] != nil && reMatchString(pattern, removed[i].Text))
+//@   ensures {C11,C09} removed == nil || fresh(removed)
+//@   ensures {C11} wfGroup(commentGroup)
+//@   loop 1 invariant $k <= len(old(commentGroup.List)) && commentGroup.List == old(commentGroup.List) && sameOld(removed)
+//@   loop 1 invariant (removed == nil || fresh(removed)) && forall(i, 0, len(removed), removed[i] != nil && reMatchString(pattern, removed[i].Text))
+//@   loop 1 invariant (modified == nil || fresh(modified)) && forall(i, 0, len(modified), modified[i] != nil) && disjoint(modified, removed)
